@@ -241,6 +241,13 @@ def helpers(ctx: Ctx):
         for u in upd_forms:
             if f"len({u})" in flow.dump(cases[0][0]):
                 upd = u
+        if upd is None:
+            # `{i for i in cell if i != id}`: the same difference spelled as a comprehension
+            for n in ast.walk(cases[0][0]):
+                if isinstance(n, ast.SetComp) and len(n.generators) == 1 and flow.dump(n.generators[0].iter) == f"{xs}.get({c}, frozenset())" and len(n.generators[0].ifs) == 1:
+                    v = flow.dump(n.generators[0].target)
+                    if flow.dump(n.elt) == v and flow.dump(n.generators[0].ifs[0]) in (f"{v} != {o}", f"{o} != {v}"):
+                        upd = flow.dump(n)
         if upd is not None:
             rows_ok = True
             for test, pol, val in cases:
